@@ -319,16 +319,22 @@ with wt_stmt (fuel : nat) (P : program) (g : tenv) (s : stmt) {struct fuel} : op
           | _ => None
           end
       | SJoinLoop p _ a b body =>
-          if wt_expr f P g a && wt_expr f P g b then
-            match wt_pat P p with
-            | Some bs =>
-                match wt_block f P (tbind_all ([] :: g) bs false) body with
-                | Some _ => Some (g, unit_ty)
+          (* both operands are arrays and the pattern has the type of a pair of their
+             elements (check.rs: elem_ty = Tuple [elem_a, elem_b]) *)
+          match e_ty a, e_ty b with
+          | TArr ta _, TArr tb _ =>
+              if wt_expr f P g a && wt_expr f P g b && ty_eqb (p_ty p) (TTup [ta; tb]) then
+                match wt_pat P p with
+                | Some bs =>
+                    match wt_block f P (tbind_all ([] :: g) bs false) body with
+                    | Some _ => Some (g, unit_ty)
+                    | None => None
+                    end
                 | None => None
                 end
-            | None => None
-            end
-          else None
+              else None
+          | _, _ => None
+          end
       | SExpr e => if wt_expr f P g e then Some (g, e_ty e) else None
       end
     end
@@ -336,14 +342,25 @@ with wt_stmt (fuel : nat) (P : program) (g : tenv) (s : stmt) {struct fuel} : op
 
 Definition wt_fuel : nat := 400.
 
-Definition wt_fn (P : program) (consts : list (N * (ty * bool))) (d : fndef) : bool :=
-  let g := [map (fun p => (fst p, (snd p, true))) (fn_params d); consts] in
+(* the scopes are built exactly as Sem.v builds them at run time ([tbind_all] mirrors
+   [Sem.bind_all]: a later binding of the same name shadows an earlier one) *)
+Definition wt_fn (P : program) (gc : tenv) (d : fndef) : bool :=
+  let g := tbind_all ([] :: gc) (fn_params d) true in
   match wt_block wt_fuel P ([] :: g) (fn_body d) with
   | Some t => ty_eqb t (fn_ret d)
   | None => false
   end.
 
+(* global constants are literals (the exporter substitutes computed constants, C12) *)
+Definition is_lit (e : expr) : bool :=
+  match e with
+  | Ex ETrue _ _ | Ex EFalse _ _ | Ex (ENumU _) _ _ | Ex (ENumS _) _ _ => true
+  | _ => false
+  end.
+
+Definition consts_tenv (P : program) : tenv :=
+  tbind_all [[]] (map (fun c => (fst c, e_ty (snd c))) (p_consts P)) false.
+
 Definition wt_program (P : program) : bool :=
-  let consts := map (fun c => (fst c, (e_ty (snd c), false))) (p_consts P) in
-  forallb (fun c => wt_expr wt_fuel P [] (snd c)) (p_consts P) &&
-  forallb (wt_fn P consts) (p_fns P).
+  forallb (fun c => is_lit (snd c) && wt_expr wt_fuel P [] (snd c)) (p_consts P) &&
+  forallb (wt_fn P (consts_tenv P)) (p_fns P).
